@@ -121,7 +121,15 @@ def _run(cfg, V, r, sdl):
                 # an extra branch placed after a named earlier element
                 elems.insert(3, dict(type='resistor', name='R9', R=V.val('R9.R', 'pos'), direction='down', length=lens[2], place_after='R1'))
             dsch = elm.Schematic(unit=unit)
-            sch.fill(dsch, [dict(e) for e in elems], unit, False, sch.SolutionDefinition({}))
+            if cfg.get('reuse'):
+                # the SAME description object is built twice (as when a loaded description is simulated again): the second build counts,
+                # and the description itself must still be what the caller wrote
+                before = C17.snap(elems)
+                sch.fill(elm.Schematic(unit=unit), elems, unit, False, sch.SolutionDefinition({}))
+                sch.fill(dsch, elems, unit, False, sch.SolutionDefinition({}))
+                C17.same(elems, before, f'description object untouched by building{tag}', obs)
+            else:
+                sch.fill(dsch, [dict(e) for e in elems], unit, False, sch.SolutionDefinition({}))
             c_decl = dt.circuit_translator(dsch)
             # the equivalent programmatic construction
             prog = elm.Schematic(unit=unit)
@@ -190,6 +198,7 @@ def configs(tier, seed):
             for pa in (False, True):
                 cfgs.append({'kind': 'declarative', 'third': third, 'directions': dirs, 'lengths': (1, 1, 1, 1) if not pa else (1, 2, 1, 2), 'place_after': pa, 'unit': 7 if not pa else 3})
                 cfgs.append({'kind': 'declarative', 'third': third, 'directions': dirs, 'lengths': (1, 2, 1, 2), 'place_after': pa, 'unit': 3, 'history': True})
+                cfgs.append({'kind': 'declarative', 'third': third, 'directions': dirs, 'lengths': (2, 1, 2, 1), 'place_after': pa, 'unit': 5, 'reuse': True})
     cfgs.append(dict(cfgs[0], twin=True))
     return cfgs, None
 
@@ -207,5 +216,5 @@ def main(tier):
         assumptions=['geometry is produced by schemdraw itself and is concrete; only values, flags and identities are symbolic', 'the real json library is used in concrete replay only (C code)', 'file I/O (dump / load on disk) is not exercised',
                      'persistable symbol set as in the property statement; lamp, switch, labelled wire, node label are not in the loader table'],
         bounds={'sources': ['V', 'I', 'Vc', 'Ic', 'Vac', 'Iac', 'Vrect', 'Irect'], 'flags': 'all reversal / deg / sin combinations', 'cycles': [1, 2],
-                'declarative lists': '2 third-element kinds x 3 direction orders x with / without place_after x alone / after an earlier description of the same names in another layout and unit'},
+                'declarative lists': '2 third-element kinds x 3 direction orders x with / without place_after x alone / after an earlier description of the same names in another layout and unit / the same description object built twice'},
         trusted=['z3 QF_LRA', 'symx executor', 'schemdraw placement (concrete)'])
